@@ -121,3 +121,12 @@ def transform(B, kind, th, eta):
 
 def arr(B, x):
     return np.array(x, dtype=object if B.symbolic else float)
+
+
+def int_arr(B, x):
+    """an array of an integer dtype: symbolic integer cells / the (already
+    integral) float values cast to int"""
+    if B.symbolic:
+        from chisym.facade_np import int_array
+        return int_array(x)
+    return np.array(x, dtype=float).astype(int)
